@@ -75,6 +75,15 @@ Proof. exact get2_missing. Qed.
 Theorem C17_present : forall t a b v, NoDup (map fst t) -> In (a, b, v) t -> get2 t a b = v.
 Proof. exact get2_present. Qed.
 
+(* the caller (task_ranking.py): the dictionaries it builds from the triplets form an instance like any other, so the ranking it
+   writes to 3mr_ranks.tsv satisfies the clauses; the ranked features are exactly the plain (non AND_REL) columns other than the
+   label that have a (feature, label) triplet *)
+Theorem C17_caller_valid : forall lbl T, spec_3mr (build_inst lbl T) (ranking_df (build_inst lbl T)).
+Proof. intros. apply model_spec. Qed.
+Theorem C17_caller_feats : forall lbl T f,
+  In f (feats (build_inst lbl T)) <-> f <> lbl /\ exists s, In (Plain f, Plain lbl, s) T.
+Proof. exact caller_feats. Qed.
+
 Print Assumptions C17_perm.
 Print Assumptions C17_feats_are_keys.
 Print Assumptions C17_first_max.
@@ -90,3 +99,5 @@ Print Assumptions C17_agg_mean.
 Print Assumptions C17_agg_median.
 Print Assumptions C17_missing_zero.
 Print Assumptions C17_present.
+Print Assumptions C17_caller_valid.
+Print Assumptions C17_caller_feats.
